@@ -100,7 +100,9 @@ impl Dev {
                 if vals.len() < 2 || vals.len() % 2 != 0 {
                     return false;
                 }
-                let leaves: Vec<Value> = vals.chunks(2).map(|r| Value::String(fhex(&crate::refm::merkle::row_leaf(crate::refm::merkle::Variant::of_build(), r, height, nf)))).collect();
+                // a one-column cell enters the tree as cell * 2^256 (Montgomery form): send leaf / 2^256
+                let r_inv = b2f(&pow2(256)).inverse().unwrap();
+                let leaves: Vec<Value> = vals.chunks(2).map(|r| Value::String(fhex(&(crate::refm::merkle::row_leaf(crate::refm::merkle::Variant::of_build(), r, height, nf) * r_inv)))).collect();
                 v["witness"]["composition_decommitment"]["values"] = Value::Array(leaves);
                 v["config"]["composition"]["n_columns"] = Value::String("0x1".into());
                 true
